@@ -57,10 +57,64 @@ impl Recorder {
             "input": input, "body": body, "bucket": bucket, "key": key}));
     }
     pub fn reply<T>(&self, op: &str) -> S3Result<S3Response<T>> {
-        let _ = self.script.get(op);
+        if let Some(e) = self.script.get(op).or_else(|| self.script.get("*")) {
+            if e.get("error").is_some() {
+                return Err(build_error(&e["error"]));
+            }
+        }
         // the default script answers every call with a recognisable error
         Err(S3Error::with_message(S3ErrorCode::Custom("VerifBackendReached".into()), op.to_owned()))
     }
+}
+
+/// An `S3Error` from its JSON description: code, message?, request_id?, status?, headers? ([[name, hex value]])
+pub fn build_error(d: &Value) -> S3Error {
+    let code = S3ErrorCode::from_bytes(d["code"].as_str().unwrap().as_bytes()).unwrap();
+    let mut e = S3Error::new(code);
+    if let Some(m) = d["message"].as_str() {
+        e.set_message(String::from_utf8(hex(&Value::String(m.to_owned()))).unwrap());
+    }
+    if let Some(m) = d["request_id"].as_str() {
+        e.set_request_id(String::from_utf8(hex(&Value::String(m.to_owned()))).unwrap());
+    }
+    if let Some(s) = d["status"].as_u64() {
+        e.set_status_code(http::StatusCode::from_u16(s as u16).unwrap());
+    }
+    if let Some(hs) = d["headers"].as_array() {
+        let mut m = http::HeaderMap::new();
+        for h in hs {
+            m.append(
+                http::HeaderName::from_bytes(h[0].as_str().unwrap().as_bytes()).unwrap(),
+                http::HeaderValue::from_bytes(&hex(&h[1])).unwrap(),
+            );
+        }
+        e.set_headers(m);
+    }
+    e
+}
+
+/// the backend answers after `delay_ms` (virtual time when the runtime is paused)
+pub async fn script_delay(script: &HashMap<String, Value>, op: &str) {
+    if let Some(d) = script.get(op).or_else(|| script.get("*")).and_then(|e| e["delay_ms"].as_u64()) {
+        tokio::time::sleep(std::time::Duration::from_millis(d)).await;
+    }
+}
+
+/// wraps a built output with the scripted status override and extra headers
+pub fn scripted_response<T>(out: T, e: &Value) -> S3Response<T> {
+    let mut resp = S3Response::new(out);
+    if let Some(s) = e["status"].as_u64() {
+        resp.status = Some(http::StatusCode::from_u16(s as u16).unwrap());
+    }
+    if let Some(hs) = e["headers"].as_array() {
+        for h in hs {
+            resp.headers.append(
+                http::HeaderName::from_bytes(h[0].as_str().unwrap().as_bytes()).unwrap(),
+                http::HeaderValue::from_bytes(&hex(&h[1])).unwrap(),
+            );
+        }
+    }
+    resp
 }
 
 pub struct AuthRec {
@@ -158,10 +212,20 @@ pub fn build_request(r: &Value) -> http::Request<Body> {
 }
 
 pub fn run(case: &Value) -> Value {
-    let rt = tokio::runtime::Builder::new_current_thread().enable_all().build().unwrap();
+    let rt = tokio::runtime::Builder::new_current_thread()
+        .enable_all()
+        .start_paused(case["paused_clock"].as_bool().unwrap_or(false))
+        .build()
+        .unwrap();
     let cfg = &case["config"];
     let log: Log = Arc::new(Mutex::new(Vec::new()));
-    let rec = Recorder { log: log.clone(), script: Arc::new(HashMap::new()) };
+    let mut script = HashMap::new();
+    if let Some(m) = case["script"].as_object() {
+        for (k, v) in m {
+            script.insert(k.clone(), v.clone());
+        }
+    }
+    let rec = Recorder { log: log.clone(), script: Arc::new(script) };
     let mut sb = S3ServiceBuilder::new(rec);
     let mut cfg_err = Value::Null;
     if let Some(d) = cfg["host"]["single"].as_str() {
@@ -193,7 +257,10 @@ pub fn run(case: &Value) -> Value {
         _ => {}
     }
     let service = sb.build();
-    let req = build_request(&case["request"]);
+    let req = match std::panic::catch_unwind(|| build_request(&case["request"])) {
+        Ok(r) => r,
+        Err(_) => return json!({"unbuildable": true}),
+    };
     let res = rt.block_on(async {
         match service.call(req).await {
             Err(e) => json!({"http_error": format!("{e:?}")}),
